@@ -206,3 +206,72 @@ Definition law_preempt (toks : list Z) : option bool :=
     else None
   | _ => None
   end.
+
+(* ---------- what law 119 says, as Props (third audit E9) ---------- *)
+
+Lemma counted_inqueue_gated (j : ejob) (d : nat) (m : Z) :
+  min_at j d = Some m -> 0 <= nth d (ej_alloc j) 0 ->
+  counted 2 j d = Z.min (nth d (ej_alloc j) 0) m + Z.max (Z.max (m - nth d (ej_alloc j) 0) 0 - nth d (ej_gated j) 0) 0.
+Proof. intros Hm Ha. unfold counted. rewrite Hm. simpl. lia. Qed.
+
+(* an admitted PodGroup none of whose pods is allocated reserves its minResources minus what its
+   scheduling-gated pods request *)
+Lemma counted_inqueue_gated_unplaced (j : ejob) (d : nat) (m : Z) :
+  min_at j d = Some m -> nth d (ej_alloc j) 0 = 0 -> 0 <= m ->
+  counted 2 j d = Z.max (m - nth d (ej_gated j) 0) 0.
+Proof. intros Hm Ha Hm0. rewrite (counted_inqueue_gated j d m Hm) by lia. rewrite Ha. lia. Qed.
+
+Lemma place_within_spec hier qs js j :
+  place_within hier qs js j = true ->
+  forall a, In a (chain hier qs (ej_queue j)) ->
+    exists qa, find_queue qs a = Some qa /\
+      forall d c, In d dims -> nth d (eq_cap qa) None = Some c -> 0 < nth d (ej_cand j) 0 ->
+        nth d (ej_cand j) 0 + alloc_sum hier qs js a d <= c.
+Proof.
+  unfold place_within. rewrite forallb_forall. intros H a Ha. specialize (H a Ha).
+  destruct (find_queue qs a) as [qa|]; [|discriminate]. exists qa. split; [reflexivity|].
+  rewrite forallb_forall in H. intros d c Hd Hc Hpos. specialize (H d Hd). rewrite Hc in H.
+  apply orb_prop in H as [H|H]; [apply negb_true_iff, Z.ltb_ge in H; lia|apply Z.leb_le, H].
+Qed.
+
+(* a positive placement vote that passes law 119: the queue is Open and has no child queue, and
+   along the chain the candidate pod plus the allocated pods of the subtree fit the capability *)
+Theorem law_enqueue_alloc_sound kind qs js j :
+  law_enqueue kind qs js = true -> In j js -> ej_avote j = 1 ->
+  let hier := (kind mod 10) =? 2 in
+  open_leaf hier qs (ej_queue j) = true /\
+  forall a, In a (chain hier qs (ej_queue j)) ->
+    exists qa, find_queue qs a = Some qa /\
+      forall d c, In d dims -> nth d (eq_cap qa) None = Some c -> 0 < nth d (ej_cand j) 0 ->
+        nth d (ej_cand j) 0 + alloc_sum hier qs js a d <= c.
+Proof.
+  unfold law_enqueue. cbv zeta. rewrite !andb_true_iff, !forallb_forall. intros [[H1 H2] _] Hin Hv.
+  specialize (H1 j Hin). specialize (H2 j Hin). rewrite Hv in H1, H2. simpl in H1, H2.
+  split; [exact H2|]. apply place_within_spec, H1.
+Qed.
+
+(* a positive enqueue vote for a Pending PodGroup with minResources that passes law 119: Open, leaf *)
+Theorem law_enqueue_leaf_sound kind qs js j l :
+  law_enqueue kind qs js = true -> In j js -> ej_min j = Some l -> ej_vote j = 1 -> ej_before j = 1 ->
+  open_leaf ((kind mod 10) =? 2) qs (ej_queue j) = true.
+Proof.
+  unfold law_enqueue. cbv zeta. rewrite !andb_true_iff, !forallb_forall. intros [_ H3] Hin Hm Hv Hb.
+  specialize (H3 j Hin). rewrite Hm, Hv, Hb in H3. simpl in H3.
+  apply andb_prop in H3 as [H3 _]. apply andb_prop in H3 as [H3 _]. exact H3.
+Qed.
+
+(* ---------- third audit E10: the gated deduction is the code's reading, not the property's ----------
+   capability 4 cpu; an admitted PodGroup (minResources 3 cpu) whose three 1-cpu pods are all
+   scheduling-gated reserves nothing; the real capacity and proportion plugins admit a Pending
+   PodGroup with minResources 2 cpu (observed: vote 1, Pending -> Inqueue); law 119, which follows
+   DeductSchGatedResources, accepts the observation although 2 + 3 > 4 *)
+Definition gated_strict_qs : list equeue := [mkEQ 1 0 true [Some 4000; None; None]].
+Definition gated_strict_js : list ejob :=
+  [mkEJ 1 2 2 (Some [Some 3000; None; None]) 1 0 [0; 0; 0] 2 [3000; 3; 0] 2 [0; 0; 0];
+   mkEJ 1 1 2 (Some [Some 2000; None; None]) 1 0 [0; 0; 0] 1 [0; 0; 0] 2 [0; 0; 0]].
+
+Theorem enqueue_gated_strict_reading_refuted :
+  law_enqueue 1 gated_strict_qs gated_strict_js = true /\
+  (* the admitted minResources, counted in full, do not fit *)
+  4000 < 2000 + 3000.
+Proof. split; [vm_compute; reflexivity|lia]. Qed.
